@@ -14,6 +14,7 @@ import z3
 from z3 import And, If, Real, RealVal
 
 from ..contracts.call_oracle import CallOracle
+from ..contracts.loss_moments import ErrorRateSignedWeights, LossSignedWeights
 from ..contracts.moments_matrix import Gamma, ProjectLambda, SignedWeights
 from ..pyvc import solve, verify
 from ..report import ROOT
@@ -34,6 +35,8 @@ def lemmas(rep):
             ("best_response.weighted_01_error_against_relabelled_data", [z3.Or(h == 0, h == 1)], absw * If(h != lab, RealVal(1), RealVal(0)) == If(w > 0, w, 0) - w * h),
             ("errorrate.difference_is_minus_w_times_h_difference", [z3.Or(y == 0, y == 1), h >= 0, h <= 1, h2 >= 0, h2 <= 1, cfp >= 0, cfn >= 0],
              err(h) - err(h2) == -ww * (h - h2))]
+    lamg, pg, ng, nn, S = (Real(x) for x in ("lam_g", "p_g", "n_g", "n", "S_g"))
+    jobs.append(("lossmoment.lambda_times_group_mean_is_weighted_row_mean", [nn > 0, ng > 0, pg == ng / nn], lamg * (S / ng) == (lamg / pg) * S / nn))
     for name, hyps, goal in jobs:
         r = solve.prove(name, hyps, goal)
         rep.add_obligation("lemma." + name, fn, "discharged" if r.status == "unsat" else "undecided", r.backend, r.secs, "P", detail=None if r.status == "unsat" else r.status)
@@ -61,6 +64,10 @@ def run_deductive(rep):
     items = [(SignedWeights(), [("utility_diff_dropped", verify.replace_expr("self.utility_diff * self.U.dot(lambda_vec)", "self.U.dot(lambda_vec)"))]),
              (Gamma(), []),
              (ProjectLambda(), [("clip_the_wrong_side", verify.replace_expr("lambda_pos < 0.0", "lambda_pos > 0.0"))]),
+             (LossSignedWeights(True), [("multiplier_not_divided_by_group_probability", verify.replace_expr("lambda_vec / self.prob_attr", "lambda_vec"))]),
+             (LossSignedWeights(False), []),
+             (ErrorRateSignedWeights(True), []),
+             (ErrorRateSignedWeights(False), [("false_positive_cost_sign", verify.replace_expr("-self.fp_cost", "self.fp_cost"))]),
              (CallOracle(), [("relabel_with_non_strict_test", verify.replace_expr("signed_weights > 0", "signed_weights >= 0")),
                              ("objective_weights_missing", verify.replace_expr("self.obj.signed_weights() + self.constraints.signed_weights(lambda_vec)", "self.constraints.signed_weights(lambda_vec)")),
                              ("weights_not_absolute", verify.replace_expr("signed_weights.abs()", "signed_weights"))])]
